@@ -127,7 +127,9 @@ def random_spec(rng: random.Random, *, variants=None, autos='random', mode=None,
             trim = rng.random() < 0.2
         else:
             antes = [rng.choice([0, 1, 2, 3]) for _ in range(n)]
-            trim = rng.random() < 0.5
+            # unequal antes with trimming leave ante money above what the others paid; if those players fold the pot
+            # has no eligible player (known "orphan pot" family) - generated only on request
+            trim = False
             if not any(antes):
                 antes[0] = 1
     spec['antes'] = antes
